@@ -45,3 +45,13 @@ Print Assumptions C16_accept_joins.
 
 Example C16_example : welcome_example_statement.
 Proof. exact welcome_example. Qed.
+
+(* an invitation whose Nostr group id is already held by another stored group (i_collides: the harness computes it from the
+   recipient's stored groups) is refused without recording anything - the routing of the group that holds the id cannot be
+   taken over by processing an invitation *)
+Theorem C16_colliding_invitation_no_effect : forall s w,
+  i_shape w = true -> aget N.eqb (i_wrapper w) (pwelcomes s) = None -> previewable s w = true ->
+  is_active s (i_gid w) = false -> i_collides w = true ->
+  process_welcome s w = (s, WErr).
+Proof. exact colliding_invitation_no_effect. Qed.
+Print Assumptions C16_colliding_invitation_no_effect.
